@@ -386,6 +386,57 @@ def classify(kind, hist, exp, got):
     return '%s/local-statics expected=%d got=%d' % (kind, exp['nlocal'], got['nlocal'])
 
 
+# Units whose references to compiler-generated private symbols (.L*: string literals, compound literals, __func__, block-scope
+# statics) are checked for closure: such a symbol cannot be defined by another unit, so every one that is referenced must be
+# defined in this output, exactly once.
+PRIVATE_UNITS = [
+    ('func-name-in-code', 'const char *f(void) { return __func__; }'),
+    ('func-name-in-static-initialiser', 'void f(void) { static const char *p = __func__; (void)p; }'),
+    ('func-name-in-static-initialiser-and-code', 'const char *f(void) { static const char *p = __func__; (void)p; return __func__; }'),
+    ('func-name-address-in-static-initialiser', 'void f(void) { static const char (*p)[2] = &__func__; (void)p; }'),
+    ('func-name-element-address', 'void f(void) { static const char *p = &__func__[1]; (void)p; }'),
+    ('func-name-unevaluated', 'unsigned long f(void) { return sizeof __func__; }'),
+    ('func-name-in-two-functions', 'const char *f(void) { return __func__; } const char *g1(void) { static const char *q = __func__; return q; }'),
+    ('string-in-static-initialiser', 'void f(void) { static const char *p = "abc"; (void)p; }'),
+    ('string-in-file-scope-initialiser', 'const char *p = "abc"; const char *q = "abc" + 1; char (*r)[4] = &"abc";'),
+    ('string-only-in-sizeof', 'unsigned long n = sizeof "abc";'),
+    ('compound-literal-at-file-scope', 'int *p = (int[]){1, 2}; struct s { int a; } *q = &(struct s){3};'),
+    ('compound-literal-in-static-initialiser', 'void f(void) { static int *p = (int[]){1, 2}; (void)p; }'),
+    ('block-static-referenced-by-static', 'int *f(void) { static int a = 1; static int *p = &a; return p; }'),
+    ('block-static-in-two-blocks', 'int f(int n) { if (n) { static int a = 1; return a++; } else { static int a = 2; static int *p = &a; return *p; } }'),
+    ('block-static-unused', 'void f(void) { static int a = 1; }'),
+    ('wide-strings', 'void f(void) { static const int *p = (const int *)L"ab"; static const unsigned short *q = u"ab"; (void)p; (void)q; }'),
+    ('string-in-nested-initialiser', 'struct t { const char *n; struct { const char *m[2]; } in; } v = { "a", { { "b", "a" } } };'),
+    ('func-name-in-nested-initialiser', 'void f(void) { static struct { const char *n[2]; } v = { { 0, __func__ } }; (void)v; }'),
+]
+
+
+def private_closure(chk):
+    n = 0
+    for name, src in PRIVATE_UNITS:
+        for t in ('x86_64-sysv', 'aarch64', 'riscv64'):
+            r = fs.server('fs').compile(src.encode(), target=t, cpu_s=10)
+            n += 1
+            if r.status != 0:
+                w = subprocess.run(['gcc', '-std=c11', '-fsyntax-only', '-xc', '-'], input=src.encode(), stdout=subprocess.PIPE, stderr=subprocess.PIPE)
+                if w.returncode == 0:
+                    chk.violation('private/rejects-valid/' + name, 'unit %r (gcc accepts it) gives status %s: %s' % (src, r.status, r.err.decode(errors='replace')[:200]),
+                                  files={'input.c': src.encode()}, cmd='$CPROC_QBE -t %s input.c' % t)
+                continue
+            o = observe(r.out, 'f')
+            m = ilparse.parse(r.out)
+            names = [d.name for d in m.data] + [f.name for f in m.funcs]
+            missing = sorted(u for u in o['undef'] if u.startswith('.L'))
+            twice = sorted(x for x in set(names) if names.count(x) > 1)
+            if missing:
+                chk.violation('private/generated-symbol-referenced-but-not-defined/' + name, 'unit %r refers to %s, which no definition in the output provides (target %s)' % (src, missing, t),
+                              files={'input.c': src.encode()}, cmd='$CPROC_QBE -t %s input.c' % t)
+            if twice:
+                chk.violation('private/generated-symbol-defined-twice/' + name, 'unit %r defines %s more than once (target %s)' % (src, twice, t),
+                              files={'input.c': src.encode()}, cmd='$CPROC_QBE -t %s input.c' % t)
+    return n
+
+
 def main(chk):
     maxlen = 3 if chk.quick else 4
     stats = {'states': set(), 'transitions': set()}
@@ -435,6 +486,7 @@ def main(chk):
                     linkref(hist, kind, stats)
                 except (Invalid, Ambiguous):
                     pass
+    nprivate = private_closure(chk)
     chk.log('%d disagreements to take to the witness' % len(bad))
     wamb = 0
     for kind, hist, exp, got in bad:
@@ -467,6 +519,7 @@ def main(chk):
         'transitions': len(stats['transitions']),
         'traces_validated_against_impl': n,
         'samples': [{'history': [' '.join(str(x) for x in s[1:]) for s in h], 'unit': render(h, 'obj'), 'expected': fmt(linkref(h, 'obj'))}],
+        'private_symbol_closure_units': nprivate,
         'evaluations': n,
         'distinct_nontrivial': len(distinct),
         'valid_histories': nvalid,
